@@ -36,6 +36,10 @@ LAY = {"IN": {"timestamp": 0, "asset": 6, "exchange": 1, "holder": 2, "transacti
        "INTRA": {"timestamp": 0, "asset": 6, "from_exchange": 1, "from_holder": 2, "to_exchange": 3, "to_holder": 4, "spot_price": 8, "crypto_sent": 7,
                  "crypto_received": 10, "notes": 12, "unique_id": 14}}
 W = 15
+# end to end the configuration file is the harness's own: account names chosen so that two different (exchange, holder) pairs spell the
+# same text when joined with "_" (Cold_Wallet + Bob / Cold + Wallet_Bob) — accounts are pairs, not strings. The list object is shared with
+# the pipeline / reports helpers (they index into it), so it is changed in place.
+ACCTS[:] = [("Cold_Wallet", "Bob"), ("Kraken", "Bob"), ("Cold", "Wallet_Bob"), ("Cold_Wallet", "Alice"), ("Kraken", "Alice")]
 EXS = sorted({a[0] for a in ACCTS})
 HOS = sorted({a[1] for a in ACCTS}, reverse=True)
 ALL_ASSETS = ["B1", "B.2", "B3"]      # real tickers contain dots and hyphens (USDC.e, BRK-B): one asset name has a dot
@@ -58,9 +62,10 @@ def eff(units):
     return None if units is None else int(Decimal(f"{units / 1e11:.11f}") * U)
 
 
-def grid(asset, rows, cfee):
+def grid(asset, rows, cfee, bad=None, order=("IN", "OUT", "INTRA")):
+    """`bad` = (row id, kind): one cell of that row is made invalid (fault 'bad-cell'); `order`: order of the tables in the sheet"""
     g = []
-    for t in ("IN", "OUT", "INTRA"):
+    for t in order:
         g.append([t] + [None] * (W - 1))
         g.append(["h%d" % c for c in range(W)])
         m = LAY[t]
@@ -100,6 +105,18 @@ def grid(asset, rows, cfee):
                 row[m["spot_price"]] = fval(r[6])
                 row[m["crypto_sent"]] = fval(r[7])
                 row[m["crypto_received"]] = fval(r[8])
+            if bad and bad[0] == r[1]:
+                k = bad[1]
+                if k == "unknown-exchange":
+                    row[m["exchange" if t != "INTRA" else "from_exchange"]] = "Nowhere"
+                elif k == "unknown-holder":
+                    row[m["holder" if t != "INTRA" else "to_holder"]] = "Nobody"
+                elif k == "negative-amount":
+                    row[m[{"IN": "crypto_in", "OUT": "crypto_out_no_fee", "INTRA": "crypto_sent"}[t]]] = -1.5
+                elif k == "text-number":
+                    row[m["spot_price"]] = "12,5"
+                elif k == "other-asset":
+                    row[m["asset"]] = [x for x in ALL_ASSETS if x != asset][0]
             g.append(row)
         g.append(["TABLE END"] + [None] * (W - 1))
     return g
@@ -130,8 +147,48 @@ def matrix():
     return [(e, l) for e in ("us", "jp", "es", "ie", "generic") for l in [None] + country_facts(e)["langs"]]
 
 
+_ENV = {}
+
+
+def env_switches():
+    """names of the environment variables read anywhere in src/rp2 (`os.environ[...]`, `os.environ.get(...)`, `"X" in os.environ`, `os.getenv(...)`): AST walk over the current tree"""
+    if "v" in _ENV:
+        return _ENV["v"]
+    import ast, glob
+    names = set()
+    for f in glob.glob(os.path.join(common.REPO, "src", "rp2", "**", "*.py"), recursive=True):
+        try:
+            tree = ast.parse(open(f).read())
+        except Exception:
+            continue
+        for n in ast.walk(tree):
+            is_env = lambda x: isinstance(x, ast.Attribute) and x.attr == "environ"
+            if isinstance(n, ast.Call) and isinstance(n.func, ast.Attribute) and ((n.func.attr in ("get", "pop", "setdefault") and is_env(n.func.value)) or n.func.attr == "getenv") \
+                    and n.args and isinstance(n.args[0], ast.Constant) and isinstance(n.args[0].value, str):
+                names.add(n.args[0].value)
+            if isinstance(n, ast.Subscript) and is_env(n.value) and isinstance(n.slice, ast.Constant) and isinstance(n.slice.value, str):
+                names.add(n.slice.value)
+            if isinstance(n, ast.Compare) and len(n.ops) == 1 and isinstance(n.ops[0], (ast.In, ast.NotIn)) and is_env(n.comparators[0]) \
+                    and isinstance(n.left, ast.Constant) and isinstance(n.left.value, str):
+                names.add(n.left.value)
+    _ENV["v"] = sorted(names)
+    return _ENV["v"]
+
+
+_CRAFT = {"k": 0}
+
+
 def gen(rng, prop=None):
+    _CRAFT["k"] += 1
+    if prop == "C16" and _CRAFT["k"] == 3:
+        # three assets with 38-49 sales each: more rows on the Capital Gains sheet than the template holds, none of the assets alone
+        n = rng.randint(38, 47)
+        entry = rng.choice(["us", "ie"])
+        return {"entry": entry, "method": None, "lang": None, "from": None, "to": None, "neg": False, "only": None, "sched": None,
+                "assets": {a: R.capacity_rows(rng, n + j) for j, a in enumerate(ALL_ASSETS)}, "cfee": {a: {} for a in ALL_ASSETS}, "fault": None, "prefix": ""}
     entry = rng.choice(["us", "us", "jp", "es", "ie", "generic"]) if prop != "C20" else "jp"
+    if prop == "C01":
+        entry = rng.choice([e for e in ("us", "us", "es", "generic") if len(country_facts(e)["methods"]) > 1] or ["us"])
     forced_lang = False
     if prop == "C16" and rng.random() < 0.6:
         # C16 quantifies over the full country x language matrix: walk through it instead of sampling it
@@ -147,8 +204,16 @@ def gen(rng, prop=None):
     # C17: sometimes nearly every acquisition pays its fee in crypto, so that the run-wide counter of artificial ids (-1, -2, …) passes
     # -9 / -10 inside a later asset: an asset's results must not depend on how many ids earlier assets used up
     heavy_cfee = prop == "C17" and rng.random() < 0.35
+    # order of the three tables in every sheet of the run (the documented format allows any)
+    torder = ["IN", "OUT", "INTRA"] if rng.random() < 0.5 else rng.choice([["IN", "INTRA", "OUT"], ["OUT", "IN", "INTRA"], ["OUT", "INTRA", "IN"], ["INTRA", "IN", "OUT"], ["INTRA", "OUT", "IN"]])
     for a in ALL_ASSETS[:n_assets]:
-        c = P.gen(rng, "reports")
+        c = P.gen(rng, "reports") if prop != "C05" else P.gen(rng, "C05")
+        if prop == "C05":
+            # lots acquired a fraction of a second after the full second (the holding period is counted between instants, to the
+            # microsecond, whatever the row went through on its way from the sheet)
+            for r in c["rows"]:
+                if r[0] == "IN" and rng.random() < 0.5:
+                    r[2] += rng.choice([1, 500000, 999999])
         rows = [r for r in c["rows"] if not (r[0] == "OUT" and r[9] is not None and r[9] != r[7] + r[8])]
         if heavy_cfee and a == ALL_ASSETS[0]:
             # the first asset gets 7-11 acquisitions (extra purchases never make a history invalid); rows are renumbered table by table
@@ -159,7 +224,16 @@ def gen(rng, prop=None):
                 ins.append(extra)
                 rows.append(extra)
             rid = 3
-            for tbl in ("IN", "OUT", "INTRA"):
+            for tbl in torder:
+                for x in rows:
+                    if x[0] == tbl:
+                        x[1] = rid
+                        rid += 1
+                rid += 3
+        if torder != ["IN", "OUT", "INTRA"]:
+            # the tables of a sheet may come in any order: rows are numbered as they will lie in the sheet
+            rid = 3
+            for tbl in torder:
                 for x in rows:
                     if x[0] == tbl:
                         x[1] = rid
@@ -171,7 +245,7 @@ def gen(rng, prop=None):
         for r in rows:
             if prop == "C20":
                 break
-            if r[0] == "IN" and rng.random() < (0.9 if heavy_cfee else 0.25) and r[7] > 10**6:
+            if r[0] == "IN" and rng.random() < (0.9 if heavy_cfee else 0.6 if prop == "C05" else 0.25) and r[7] > 10**6:
                 cfee[a][str(r[1])] = rng.choice([1, 10**5, r[7] // 1000 or 1])
                 r[8] = None
         days += [ldate(r[2], r[3]) for r in rows]
@@ -199,27 +273,101 @@ def gen(rng, prop=None):
                             {"1970": rng.choice(ms), "2020": rng.choice(ms), "2022": rng.choice(ms)},
                             {"2018": rng.choice(ms), "2020": rng.choice(ms), "2021": rng.choice(ms), "2022": rng.choice(ms)},
                             {"1970": rng.choice(ms), "2019": rng.choice(ms), "2020": rng.choice(ms), "2021": rng.choice(ms), "2023": rng.choice(ms)}])
+    if prop in ("C01", "C10") and len(facts["methods"]) > 1 and sched is None and rng.random() < 0.6:
+        method = None
+        ms = facts["methods"]
+        sched = rng.choice([{"1970": rng.choice(ms), "2020": rng.choice(ms), "2021": rng.choice(ms)},
+                            {"2018": rng.choice(ms), "2019": rng.choice(ms), "2020": rng.choice(ms), "2021": rng.choice(ms), "2022": rng.choice(ms)}])
+    if sched and len(sched) >= 3 and rng.random() < 0.5:
+        # a method that comes back after another one was in force (a, b, a), and the entries of the section in any order of the file:
+        # what counts is the year of each entry, not the line it is written on
+        ks = sorted(sched)
+        a_, b_ = rng.sample(facts["methods"], 2)
+        i_ = rng.randrange(len(ks) - 2)
+        sched[ks[i_]], sched[ks[i_ + 1]], sched[ks[i_ + 2]] = a_, b_, a_
+    if sched and len(sched) >= 2 and rng.random() < 0.5:
+        ks = list(sched)
+        rng.shuffle(ks)
+        sched = {k: sched[k] for k in ks}
+    if prop == "C10" and rng.random() < 0.7:
+        # C10: the window must not change the figures: a from-date inside or after the years of the history, often with a schedule
+        fd = rng.choice(cand)
+        if td and fd > td:
+            td = None
+        ys_ = sorted({d.year for d in days})
+        if len(facts["methods"]) > 1 and len(ys_) >= 2 and rng.random() < 0.75:
+            # the history before the window is matched by the methods of *its* years: a schedule that changes method (to the opposite
+            # order) before or in the year of the from-date, and a from-date late in the history
+            y2 = rng.choice(ys_[1:])
+            opp = [p_ for p_ in (("fifo", "lifo"), ("lifo", "fifo"), ("hifo", "lofo"), ("lofo", "hifo")) if p_[0] in facts["methods"] and p_[1] in facts["methods"]]
+            a_, b_ = rng.choice(opp) if opp else rng.sample(facts["methods"], 2)
+            sched = {"1970": a_, str(y2): b_}
+            if rng.random() < 0.4:
+                sched[str(y2 + 1)] = rng.choice(facts["methods"])
+            method = None
+            late = [d for d in cand if d.year >= y2]
+            fd = rng.choice(late) if late else fd
+            if td and fd > td:
+                td = None
+    if prop == "C01":
+        fd = td = None
+        if len(facts["methods"]) > 1 and rng.random() < 0.85:
+            # C01 end to end is about the schedule the configuration file states: entries at years in which the history has disposals,
+            # a method that comes back after another one (a, b, a), the lines of the section in any order
+            ys = sorted({P.local_year(r[2], r[3]) for rows in assets.values() for r in rows})
+            dy = sorted({P.local_year(r[2], r[3]) for rows in assets.values() for r in rows if r[0] != "IN" and P.local_year(r[2], r[3]) > ys[0]})
+            if dy and rng.random() < 0.8:
+                y3 = rng.choice(dy)                  # the method comes back in a year that has disposals
+                y2 = rng.choice([y for y in range(ys[0] + 1, y3)] or [y3 - 1]) if y3 - 1 > ys[0] else None
+                if y2 is None:
+                    y2, y3 = y3, y3 + 1
+            else:
+                later = [y for y in ys[1:]] or [ys[0] + 1]
+                y2 = rng.choice(later)
+                y3 = rng.choice([y for y in later if y > y2] or [y2 + 1])
+            opp = [p_ for p_ in (("fifo", "lifo"), ("lifo", "fifo"), ("hifo", "lofo"), ("lofo", "hifo")) if p_[0] in facts["methods"] and p_[1] in facts["methods"]]
+            a_, b_ = rng.choice(opp) if opp and rng.random() < 0.7 else rng.sample(facts["methods"], 2)
+            ent = [(str(min(1970, ys[0])) if rng.random() < 0.7 else str(ys[0]), a_), (str(y2), b_), (str(y3), a_ if rng.random() < 0.8 else rng.choice(facts["methods"]))]
+            order = rng.choice([[0, 1, 2], [0, 2, 1], [0, 2, 1], [1, 0, 2], [1, 0, 2], [2, 0, 1], [2, 1, 0], [1, 2, 0]])
+            sched = {ent[i][0]: ent[i][1] for i in order}
+            method = None
     case = {"entry": entry, "method": method, "lang": lang, "from": fd.isoformat() if fd else None, "to": td.isoformat() if td else None, "neg": rng.random() < 0.8,
-            "only": rng.choice(list(assets)) if rng.random() < 0.15 else None, "sched": sched, "assets": assets, "cfee": cfee, "fault": None, "prefix": rng.choice(["", "x_"])}
+            "only": rng.choice(list(assets)) if rng.random() < 0.15 else None, "sched": sched, "assets": assets, "cfee": cfee, "fault": None, "prefix": rng.choice(["", "x_"]), "table_order": torder}
     if forced_lang and lang is not None and rng.random() < 0.6:
         case["fresh"] = True
     if prop == "C18" and rng.random() < 0.45:
         # failing runs are audited too; the faults that end on the "unexpected error" path or involve the bytes of an input file are favoured
         case["fault"] = rng.choice(FAULTS + ["config-with-bom", "ini-duplicate-option", "input-not-ods"] * 3)
+    if prop == "C18" and rng.random() < 0.3:
+        # every environment variable the source reads is a switch of the program: the write set must stay confined with each of them set
+        sw = [v for v in env_switches() if v not in ("CURRENCY_CODE", "LONG_TERM_CAPITAL_GAINS")]
+        if sw:
+            case["env"] = {rng.choice(sw): rng.choice(["1", "DEBUG", "true"])}
     if prop == "C18" and rng.random() < 0.12:
         case["variant"] = "log-is-a-file"
     elif prop == "C18" and rng.random() < 0.2:
         case["variant"] = "report-is-symlink"
     if prop == "C12" and rng.random() < 0.7:
-        case["fault"] = rng.choice(FAULTS)
+        case["fault"] = rng.choice(FAULTS + ["bad-cell"] * 6)
         if case["fault"] == "asset-without-sheet":
             case["only"] = None
+        if case["fault"] == "bad-cell":
+            # one invalid cell in one row of one sheet; every row is validated whatever the options are — in particular a row dated
+            # outside the window of the run (often the latest row, with a to-date before it)
+            a = rng.choice(list(assets))
+            case["only"] = None
+            rws = assets[a]
+            r = max(rws, key=lambda x: x[2]) if rng.random() < 0.5 else rng.choice(rws)
+            case["badcell"] = [a, r[1], rng.choice(["unknown-exchange", "unknown-holder", "negative-amount", "text-number", "other-asset"])]
+            if rng.random() < 0.6:
+                case["to"] = (ldate(r[2], r[3]) - timedelta(days=rng.choice([1, 1, 30, 400]))).isoformat()
+                case["from"] = None if rng.random() < 0.7 else (date.fromisoformat(case["to"]) - timedelta(days=500)).isoformat()
     if prop == "C20":
         # rp2_jp end to end in each language it ships templates for (kl = the test locale, every string prefixed): no from+to (finding F8)
         case["lang"] = rng.choice([None, "en", "kl", "kl"] if "kl" in facts["langs"] else [None, "en"])
         case["from"] = None          # the oracle's expectation is written for to-date windows (as in the reports stream)
     if prop == "C17":
-        case["variant"] = rng.choice(["hashseed", "hashseed", "stale-output", "single-asset", "single-asset", "repeat", "permuted", "permuted"]) if not heavy_cfee else "single-asset"
+        case["variant"] = rng.choice(["hashseed", "hashseed", "stale-output", "single-asset", "single-asset", "repeat", "permuted", "permuted", "tables", "tables", "tables"]) if not heavy_cfee else "single-asset"
         if case["variant"] == "single-asset" and len(facts["methods"]) > 1 and rng.random() < 0.7:
             case["method"], case["sched"], case["only"] = rng.choice(["hifo", "lofo", "lifo"]), None, None
     return case
@@ -236,7 +384,7 @@ KNOWN_FAULTS = {"jp-from-and-to": "F8", "unknown-generator": "F14"}     # genuin
 def write_inputs(case, d):
     doc = ezodf.newdoc("ods", os.path.join(d, "in.ods"))
     for a, rows in case["assets"].items():
-        g = grid(a, rows, case["cfee"].get(a, {}))
+        g = grid(a, rows, case["cfee"].get(a, {}), case["badcell"][1:] if case.get("fault") == "bad-cell" and case["badcell"][0] == a else None, order=case.get("table_order") or ("IN", "OUT", "INTRA"))
         sh = ezodf.Table(a, size=(len(g) + 2, W + 1))
         for i, row in enumerate(g):
             for j, v in enumerate(row):
@@ -393,6 +541,8 @@ def run_child(case, d, argv, hashseed=None):
             # drop the copies the harness imported so that the child imports them afresh, as a new process would
             for mname in [k for k in sys.modules if k.startswith("rp2.plugin.report")]:
                 del sys.modules[mname]
+            for k_, v_ in (case.get("env") or {}).items():
+                os.environ[k_] = v_
             sys.addaudithook(hook)
             sys.argv = argv
             try:
@@ -590,7 +740,7 @@ def encode(case):
     L = ["RESET"] + ini_lines(case)
     for a, rows in case["assets"].items():
         L.append(f"S {PA.hexs(a)}")
-        g = grid(a, rows, case["cfee"].get(a, {}))
+        g = grid(a, rows, case["cfee"].get(a, {}), case["badcell"][1:] if case.get("fault") == "bad-cell" and case["badcell"][0] == a else None, order=case.get("table_order") or ("IN", "OUT", "INTRA"))
         for row in g + [[None] * W, [None] * W]:
             L.append("R " + " ".join(PA.cell_tok(v) for v in row + [None]))
     fd = date.fromisoformat(case["from"]) if case["from"] else None
@@ -612,7 +762,7 @@ def encode(case):
     return L
 
 
-MODELLED_FAULTS = {None, "jp-from-and-to", "from-after-to", "unknown-asset-option", "unknown-language", "plugin-flag", "method-twice", "unknown-method-in-section", "method-not-allowed",
+MODELLED_FAULTS = {None, "bad-cell", "jp-from-and-to", "from-after-to", "unknown-asset-option", "unknown-language", "plugin-flag", "method-twice", "unknown-method-in-section", "method-not-allowed",
                    "asset-without-sheet", "ini-missing-section", "ini-duplicate-column", "ini-bad-header-name", "ini-non-integer-column", "ini-empty-assets", "ini-unknown-section",
                    "ini-duplicate-option", "config-with-bom", "ini-negative-column", "ini-duplicate-asset", "ini-section-twice", "ini-early-year", "unknown-generator"}
 
@@ -640,6 +790,17 @@ def run_model(cases):
     return res
 
 
+def open_canon(r):
+    """rp2 orders accounts by the text `exchange_holder`; the two accounts of this stream that spell the same text tie there and keep the
+    order of their first transaction, which no property speaks about: the rows of the open-positions report are compared as a set
+    (their position in the sheet is dropped)"""
+    if r[0] in ("OA", "OE"):
+        return [r[0], 0] + list(r[2:])
+    if r[0] == "OT":
+        return [r[0], r[1], 0] + list(r[3:])
+    return r
+
+
 def diff(case, i, m):
     if case.get("fault") not in MODELLED_FAULTS:
         return []                       # faults outside the model (input file is not an .ods, configuration file missing, malformed date option): oracle only
@@ -660,8 +821,8 @@ def diff(case, i, m):
         return d + ["status"]
     if not i.get("content_checked", True):
         return d + (["unreadable"] if any(r[0] == "UNREADABLE" for r in i["rows"]) else [])
-    d += [x for x in R.diff(case, {"status": "ok", "rows": [r for r in i["rows"] if r[0] in R.KIND], "sheets": i.get("sheets")},
-                            {"status": "ok", "rows": m["rows"], "sheets": m.get("sheets")})]
+    d += [x for x in R.diff(case, {"status": "ok", "rows": [open_canon(r) for r in i["rows"] if r[0] in R.KIND], "sheets": i.get("sheets")},
+                            {"status": "ok", "rows": [open_canon(r) for r in m["rows"]], "sheets": m.get("sheets")})]
     if any(r[0] == "UNREADABLE" for r in i["rows"]):
         d.append("unreadable")
     if i.get("legend") and m.get("legend_method") and i["legend"][0] != m["legend_method"]:
@@ -935,18 +1096,52 @@ def oracle_c17(case, res, guard=True):
                 return f"reports differ between PYTHONHASHSEED=1 and PYTHONHASHSEED={hs}: " + first_diff(a, b)
         other = a
         what = "a run in a fresh interpreter with PYTHONHASHSEED=1"
+    elif v == "tables":
+        # the three tables of every sheet in each of the other five orders (rows keep their order within a table; row numbers change)
+        if any(len({r[2] for r in rows}) < len(rows) for rows in case["assets"].values()):
+            return None
+        cur = case.get("table_order") or ["IN", "OUT", "INTRA"]
+        strip = lambda r: [("id" if (k in (2, 3, 4) and r[0] in ("IOIN", "IOOUT", "IOX", "TD")) or (k in (9, 10) and r[0] == "TD") or (k == 6 and r[0] == "SU") else x) for k, x in enumerate(r)]
+        mine = sorted(json.dumps(strip(r), default=str) for r in res["rows"] if r[0] in ("IOIN", "IOOUT", "IOX", "TD", "TY", "TB", "TT", "TP", "TR", "OA", "OE", "OT", "JS", "JR"))
+        for torder in (["IN", "OUT", "INTRA"], ["IN", "INTRA", "OUT"], ["OUT", "IN", "INTRA"], ["OUT", "INTRA", "IN"], ["INTRA", "IN", "OUT"], ["INTRA", "OUT", "IN"]):
+            if torder == list(cur):
+                continue
+            new_assets, new_cfee = {}, {}
+            for a, rows in case["assets"].items():
+                new = [list(r) for r in rows]
+                rid = 3
+                old2new = {}
+                for tbl in torder:
+                    for x in new:
+                        if x[0] == tbl:
+                            old2new[x[1]] = rid
+                            x[1] = rid
+                            rid += 1
+                    rid += 3
+                new_assets[a] = new
+                new_cfee[a] = {str(old2new[int(k)]): v_ for k, v_ in case["cfee"].get(a, {}).items()}
+            r2 = run_impl(dict(case, table_order=torder, assets=new_assets, cfee=new_cfee, variant=None))
+            if r2["exit"] != 0:
+                return f"the same sheet with its tables in the order {torder} is rejected (exit {r2['exit']}); in the order {list(cur)} it is computed"
+            theirs = sorted(json.dumps(strip(r), default=str) for r in r2["rows"] if r[0] in ("IOIN", "IOOUT", "IOX", "TD", "TY", "TB", "TT", "TP", "TR", "OA", "OE", "OT", "JS", "JR"))
+            if mine != theirs:
+                return (f"reports differ between the table orders {list(cur)} and {torder} of the same sheet (timestamps distinct): "
+                        + str([x for x in mine if x not in theirs][:1] + [x for x in theirs if x not in mine][:1]))
+        return None
     elif v == "permuted":
         # rows reordered within each table (ids change, everything else must not) — only when timestamps are distinct within an asset
         if any(len({r[2] for r in rows}) < len(rows) for rows in case["assets"].values()):
             return None
         rng = random.Random(len(json.dumps(case, default=str)))
         perm = {}
+        # the tables of a sheet in any of the six orders (the same order for all sheets of the run), rows shuffled within each table
+        torder = rng.choice([["IN", "OUT", "INTRA"], ["IN", "INTRA", "OUT"], ["OUT", "IN", "INTRA"], ["OUT", "INTRA", "IN"], ["INTRA", "IN", "OUT"], ["INTRA", "OUT", "IN"]])
         for a, rows in case["assets"].items():
             new = [list(r) for r in rows]
             rng.shuffle(new)
             rid = 3
             old2new = {}
-            for tbl in ("IN", "OUT", "INTRA"):
+            for tbl in torder:
                 for x in new:
                     if x[0] == tbl:
                         old2new[x[1]] = rid
@@ -954,7 +1149,7 @@ def oracle_c17(case, res, guard=True):
                         rid += 1
                 rid += 3
             perm[a] = (new, old2new)
-        c2 = dict(case, assets={a: perm[a][0] for a in perm}, cfee={a: {str(perm[a][1][int(k)]): v_ for k, v_ in case["cfee"].get(a, {}).items()} for a in perm})
+        c2 = dict(case, table_order=torder, assets={a: perm[a][0] for a in perm}, cfee={a: {str(perm[a][1][int(k)]): v_ for k, v_ in case["cfee"].get(a, {}).items()} for a in perm})
         r2 = run_impl(c2)
         if r2["exit"] != 0:
             return f"the same transactions with rows reordered within the tables are rejected (exit {r2['exit']})"
@@ -1005,6 +1200,141 @@ def oracle_c02(case, res, guard=True):
         return None
     if res["exit"] != 0:
         return f"every disposal is covered by lots acquired at or before it, yet the run is rejected (exit {res['exit']}, options {argv_of(case, '.')[1:-2]})"
+    return None
+
+
+def _us(t):
+    from datetime import datetime, timezone
+    return (t - datetime(1970, 1, 1, tzinfo=timezone.utc)) // timedelta(microseconds=1)
+
+
+def file_fractions(res, a):
+    """the Gain / Loss Detail rows of asset `a` in the real report, each identified through the hyperlinks of the file itself:
+    (event kind, event id, lot id or None, amount in grid units, proceeds, cost, gain, long, sheet row)"""
+    rowmap = {}
+    for r in res["rows"]:
+        if r[0] in ("IOIN", "IOOUT", "IOX") and r[1] == a:
+            rowmap[r[2]] = ({"IOIN": "IN", "IOOUT": "OUT", "IOX": "INTRA"}[r[0]], r[3])
+    out = []
+    for r in res["rows"]:
+        if r[0] != "TD" or r[1] != a:
+            continue
+        ev = rowmap.get(r[9][1]) if r[9] else None
+        lot = rowmap.get(r[10][1]) if r[10] else None
+        out.append((ev[0] if ev else None, ev[1] if ev else None, lot[1] if lot else None, round(r[5] * 10**11), r[6], r[7], r[8], r[2], r[10] is not None))
+    return out
+
+
+def oracle_c01(case, res, guard=True):
+    """end to end, from the file alone: every fraction of the Gain / Loss Detail table was taken from the lot the method in force in the
+    year of the disposal ranks first among the lots acquired at or before it that still have balance (property-text strength: the
+    method's primary criterion only; the schedule is the one the configuration file states, whatever the order of its lines)"""
+    if case.get("fault") is not None or res["exit"] != 0 or "_full" not in res or case["from"] or case["to"]:
+        return None
+    sched = case["sched"] or {"1970": case["method"] or country_facts(case["entry"])["default_method"]}
+    years = sorted(int(y) for y in sched)
+    for a, cd in res["_a2c"].items():
+        tx = {}
+        for kind, st in (("IN", cd.in_transaction_set), ("OUT", cd.out_transaction_set), ("INTRA", cd.intra_transaction_set)):
+            for t in st:
+                tx[(kind, int(t.internal_id))] = t
+        lots = {i: t for (k, i), t in tx.items() if k == "IN"}
+        taxable = [t for t in tx.values() if t.is_taxable()]
+        if guard and any(x.timestamp == y.timestamp and x.timestamp.year != y.timestamp.year for x in taxable for y in taxable):
+            continue            # finding F7: two events at one instant in different local years
+        rem = {i: int((Decimal(str(t.crypto_in)) * 10**11).to_integral_value()) for i, t in lots.items()}
+        for k, (ek, ei, li, amt, _p, _c, _g, row, haslot) in enumerate(file_fractions(res, a)):
+            if not haslot:
+                continue
+            e = tx.get((ek, ei))
+            if e is None or li not in lots:
+                return f"{a} Tax row {row}: the links of the fraction lead to no transaction of the sheet (event {ek} {ei}, lot {li})"
+            ys = [y for y in years if y <= e.timestamp.year]
+            if not ys:
+                return None
+            m = sched[str(ys[-1])]
+            L = lots[li]
+            if L.timestamp > e.timestamp:
+                return f"{a} Tax row {row}: lot {li} was acquired after the disposal {ei}"
+            for j, J in lots.items():
+                if j == li or rem[j] <= 0 or J.timestamp > e.timestamp:
+                    continue
+                better = {"fifo": J.timestamp < L.timestamp, "lifo": J.timestamp > L.timestamp, "hifo": J.spot_price > L.spot_price, "lofo": J.spot_price < L.spot_price}[m]
+                if better:
+                    return (f"{a} Tax row {row}: the disposal {ei} of {e.timestamp.year} ({m} is in force: schedule {dict(sorted(sched.items()))}) took lot {li} "
+                            f"while lot {j} with balance {rem[j]}e-11 ranks before it")
+            rem[li] -= amt
+    return None
+
+
+def oracle_c05(case, res, guard=True):
+    """end to end, from the sheet to the report: the LONG/SHORT cell of every Gain / Loss Detail row against the whole days between the
+    instants of the two rows of the input sheet (threshold of the country; income rows are short)"""
+    if case.get("fault") is not None or res["exit"] != 0 or "_full" not in res or case["from"] or case["to"]:
+        return None
+    period = {"us": 365, "es": 365}.get(case["entry"])
+    if case["entry"] == "generic":
+        period = int(os.environ.get("LONG_TERM_CAPITAL_GAINS", "0") or 0)
+    for a in res["_a2c"]:
+        when = {}
+        for r in with_cfee(case, a):
+            when[(r[0], r[1])] = r[2]
+        arts = sorted([r for r in with_cfee(case, a) if r[1] < 0], key=lambda r: -r[1])
+        for (ek, ei, li, amt, _p, _c, _g, row, haslot), td in zip(file_fractions(res, a), [r for r in res["rows"] if r[0] == "TD" and r[1] == a]):
+            is_long = td[8]
+            if not haslot:
+                if is_long:
+                    return f"{a} Tax row {row}: an income row is marked LONG"
+                continue
+            if li is None or (("IN", li) not in when):
+                continue
+            # the artificial fee rows carry ids of a run-wide counter: take their instant from the acquisition they belong to (same instant)
+            if ei is not None and ei < 0:
+                t_ev = res["_a2c"][a] and next((_us(t.timestamp) for t in res["_a2c"][a].out_transaction_set if int(t.internal_id) == ei), None)
+            else:
+                t_ev = when.get((ek, ei))
+            if t_ev is None:
+                continue
+            span = t_ev - when[("IN", li)]
+            want = period is not None and span // (86400 * 10**6) >= period
+            if is_long != want:
+                return (f"{a} Tax row {row}: marked {'LONG' if is_long else 'SHORT'} but {span} µs lie between the acquisition (row {li}) and the disposal "
+                        f"(country {case['entry']}, threshold {period} days)")
+    return None
+
+
+def oracle_c10(case, res, guard=True):
+    """a run with a date window shows, for the fractions it lists, exactly the figures of the run without a window (pairing, amount,
+    proceeds, cost basis, gain, long/short), and lists every fraction of the unfiltered run whose event is dated inside the window"""
+    if case.get("fault") is not None or res["exit"] != 0 or "_full" not in res or not (case["from"] or case["to"]):
+        return None
+    if case["entry"] == "jp" and case["from"] and case["to"]:
+        return None
+    if guard and (case["to"] or case["from"]) and not all(P.local_dates_monotone({"rows": effective_rows(with_cfee(case, a))}) for a in case["assets"]):
+        return None             # finding F6: the scan over an entry set stops at the first entry dated after the to-date (and local dates
+                                # need not follow the instant order); from-dates are kept under the same guard here because the filtered
+                                # run's yearly numbering is compared row by row
+    r2 = run_impl(dict(case, **{"from": None, "to": None, "variant": None, "fresh": False}))
+    if r2["exit"] != 0 or "_full" not in r2:
+        return None             # the unfiltered history does not compute: nothing to compare with (C08 / C16 are about that)
+    fd = date.fromisoformat(case["from"]) if case["from"] else date.min
+    td = date.fromisoformat(case["to"]) if case["to"] else date.max
+    for a, cd in r2["_a2c"].items():
+        if a not in res["_a2c"]:
+            continue
+        when = {}
+        for kind, st in (("IN", cd.in_transaction_set), ("OUT", cd.out_transaction_set), ("INTRA", cd.intra_transaction_set)):
+            for t in st:
+                when[(kind, int(t.internal_id))] = t.timestamp.date()
+        # the event of a fraction is always linked when it is shown (it lies in the window); the lot may be hidden (no link): compare the figures
+        key = lambda f: (f[0], f[1], f[3], f[4], f[5], f[6])
+        full = sorted(key(f) for f in file_fractions(r2, a) if f[1] is not None and fd <= when.get((f[0], f[1]), date.min) <= td)
+        shown = sorted(key(f) for f in file_fractions(res, a))
+        if shown != full:
+            x = [f for f in shown if f not in full][:1]
+            y = [f for f in full if f not in shown][:1]
+            return (f"{a}: the Gain / Loss Detail rows of the run with window [{case['from']}, {case['to']}] differ from the in-window rows of the run "
+                    f"without a window (event kind, event id, amount, proceeds, cost basis, gain): shown {x} vs unfiltered {y}")
     return None
 
 
@@ -1062,7 +1392,7 @@ def oracle_c20(case, res, guard=True):
     return R.oracle_c20(rc, {"status": "ok", "rows": [r for r in res["rows"] if r[0] in ("JS", "JR")]}, guard)
 
 
-ORACLES = {"C20": oracle_c20, "C02": oracle_c02, "C15": oracle_c15, "C12": oracle_c12, "C13": oracle_c13, "C16": oracle_c16, "C17": oracle_c17, "C18": oracle_c18, "C19": oracle_c19}
+ORACLES = {"C01": oracle_c01, "C05": oracle_c05, "C10": oracle_c10, "C20": oracle_c20, "C02": oracle_c02, "C15": oracle_c15, "C12": oracle_c12, "C13": oracle_c13, "C16": oracle_c16, "C17": oracle_c17, "C18": oracle_c18, "C19": oracle_c19}
 
 
 def shrink_candidates(case):
